@@ -227,6 +227,19 @@ func TestCheck(t *testing.T) {
 	if !ok {
 		return
 	}
+	// a new foreign-key violation next to one the database already had
+	for _, mode := range []string{"file", "all"} {
+		for _, same := range []bool{true, false} {
+			c := OCase{Mode: mode, SameTable: same}
+			if !ev.Each(col, "new-violation-next-to-an-old-one", c, func(c OCase) error {
+				col.Class("migrate-apply/mode=" + c.Mode + "/foreign-key-violation/legacy-orphan")
+				col.NonTrivial(fmt.Sprintf("orphan|%s|%v", c.Mode, c.SameTable))
+				return checkOrphan(c)
+			}, ev.Matcher[OCase]{}) {
+				return
+			}
+		}
+	}
 	// a first run with --baseline whose later file fails: all mode leaves the database as it was
 	for _, files := range []int{1, 2} {
 		for failF := 0; failF < files; failF++ {
@@ -277,6 +290,10 @@ var knownB = ev.Matcher[BCase]{
 }
 
 func TestReplay(t *testing.T) {
+	if strings.HasPrefix(ev.ReplaySub(), "new-violation") {
+		ev.ReplayFile(t, "C13", func(_ string, c OCase) error { return checkOrphan(c) })
+		return
+	}
 	if strings.HasPrefix(ev.ReplaySub(), "baseline") {
 		ev.ReplayFile(t, "C13", func(_ string, c BCase) error { return checkBaseline(c) })
 		return
